@@ -837,6 +837,13 @@ class Workspace(_ChannelSummaryMixin, dict):
                             "inits": parset_spec['paramset'].suggested_init,
                             "fixed": parset_spec['paramset'].suggested_fixed_as_bool,
                             "name": parset_name,
+                            # constraint settings (auxiliary data, widths, rate factors)
+                            # are part of the model as well
+                            **{
+                                key: list(getattr(parset_spec['paramset'], key))
+                                for key in ('auxdata', 'sigmas', 'factors')
+                                if hasattr(parset_spec['paramset'], key)
+                            },
                         }
                         for parset_name, parset_spec in model.config.par_map.items()
                     ],
